@@ -1,7 +1,137 @@
-//! Implementation-side evaluator for the `classify` correspondence checks (see props/).
+//! Implementation-side evaluator for the `classify` correspondence checks (props/C03.py):
+//! the real `create_execution_result`, `ExecutionStatuses::describe` and the `detect_fd_leaks`
+//! loop through hook H3.
+//!
+//! Result encoding (same as `enc_result` in the Coq prelude of props/C03.py):
+//! Pass=[0] Leak=[1] Fail=[2, has_signal, signal, leaked] ExecFail=[3] Timeout=[4].
+use nextest_runner::{
+    reporter::events::{verif_events, verif_events::Described, AbortStatus, ExecutionResult},
+    runner::verif_executor,
+};
 use serde_json::{json, Value};
+use std::{
+    io::Write,
+    os::fd::OwnedFd,
+    time::{Duration, Instant},
+};
+
+pub(crate) fn enc(r: ExecutionResult) -> Value {
+    match r {
+        ExecutionResult::Pass => json!([0]),
+        ExecutionResult::Leak => json!([1]),
+        ExecutionResult::Fail {
+            abort_status,
+            leaked,
+        } => match abort_status {
+            Some(AbortStatus::UnixSignal(s)) => json!([2, 1, s, leaked as u64]),
+            None => json!([2, 0, 0, leaked as u64]),
+        },
+        ExecutionResult::ExecFail => json!([3]),
+        ExecutionResult::Timeout => json!([4]),
+    }
+}
+
+fn dec(v: &Value) -> ExecutionResult {
+    let a: Vec<i64> = v
+        .as_array()
+        .expect("result")
+        .iter()
+        .map(|x| x.as_i64().expect("number"))
+        .collect();
+    match a[0] {
+        0 => ExecutionResult::Pass,
+        1 => ExecutionResult::Leak,
+        2 => ExecutionResult::Fail {
+            abort_status: (a[1] != 0).then_some(AbortStatus::UnixSignal(a[2] as i32)),
+            leaked: a[3] != 0,
+        },
+        3 => ExecutionResult::ExecFail,
+        4 => ExecutionResult::Timeout,
+        other => panic!("unknown result code {other}"),
+    }
+}
+
+fn leak_probe(case: &Value) -> Value {
+    let unit = Duration::from_millis(case["unit_ms"].as_u64().expect("unit_ms"));
+    let timeout = unit * case["timeout"].as_u64().expect("timeout") as u32;
+    // events: [[t, "data" | "eof" | "req"], ...] with t in units, ascending
+    let mut fd_events: Vec<(Duration, bool)> = Vec::new();
+    let mut reqs: Vec<Duration> = Vec::new();
+    for e in case["events"].as_array().expect("events") {
+        let t = unit * e[0].as_u64().expect("t") as u32;
+        match e[1].as_str().expect("kind") {
+            "data" => fd_events.push((t, false)),
+            "eof" => fd_events.push((t, true)),
+            "req" => reqs.push(t),
+            other => panic!("unknown event {other}"),
+        }
+    }
+    let (reader, writer) = std::io::pipe().expect("pipe");
+    let file = std::fs::File::from(OwnedFd::from(reader));
+    let (done_tx, done_rx) = std::sync::mpsc::channel::<()>();
+    let rt = tokio::runtime::Builder::new_current_thread()
+        .enable_all()
+        .build()
+        .expect("runtime");
+    let t0 = Instant::now();
+    let holder = std::thread::spawn(move || {
+        let mut writer = Some(writer);
+        for (t, eof) in fd_events {
+            if let Some(rest) = t.checked_sub(t0.elapsed()) {
+                // stop early if the probe has already returned
+                if done_rx.recv_timeout(rest).is_ok() {
+                    return;
+                }
+            }
+            if eof {
+                writer = None;
+            } else if let Some(w) = writer.as_mut() {
+                let _ = w.write_all(b"x");
+            }
+        }
+        // hold whatever is still open until the probe has returned
+        let _ = done_rx.recv();
+        drop(writer);
+    });
+    let (leaked, elapsed) =
+        rt.block_on(verif_executor::detect_fd_leaks_probe(file, timeout, reqs));
+    let _ = done_tx.send(());
+    let _ = holder.join();
+    drop(rt);
+    json!([leaked as u64, elapsed.as_millis() as u64])
+}
 
 pub fn run(case: &Value) -> Value {
-    let _ = case;
-    json!({ "error": "not implemented" })
+    match case["op"].as_str().unwrap_or("") {
+        // create_execution_result(ExitStatus::from_raw(raw), errors, leaked)
+        "cer" => enc(verif_executor::create_execution_result_raw(
+            case["raw"].as_i64().expect("raw") as i32,
+            case["err"].as_bool().expect("err"),
+            case["leaked"].as_bool().expect("leaked"),
+        )),
+        // ExecutionStatuses::new(..).describe() / last_status()
+        "describe" => {
+            let results: Vec<ExecutionResult> = case["results"]
+                .as_array()
+                .expect("results")
+                .iter()
+                .map(dec)
+                .collect();
+            let (d, last_attempt, last_result) = verif_events::describe_results(&results);
+            let d = match d {
+                Described::Success { single } => json!([0, single, 0, []]),
+                Described::Flaky { last, prior } => json!([1, last, 0, prior]),
+                Described::Failure {
+                    first,
+                    last,
+                    retries,
+                } => json!([2, last, first, retries]),
+            };
+            json!({ "describe": d, "last_attempt": last_attempt, "last_result": enc(last_result),
+                    "is_success": last_result.is_success() })
+        }
+        "is_success" => json!(dec(&case["result"]).is_success()),
+        "leak" => leak_probe(case),
+        other => json!({ "error": format!("unknown op {other}") }),
+    }
 }
